@@ -165,6 +165,7 @@ type creq struct {
 	op           string
 	pw, tmo, nw  int
 	pwStr, nwStr string
+	coin         int
 }
 
 func (g *walletRig) intn(n int) int {
@@ -177,8 +178,9 @@ func (g *walletRig) intn(n int) int {
 func (g *walletRig) resolve(req map[string]any) *creq {
 	q := &creq{op: fmt.Sprint(req["op"]), pw: toInt(req["pw"]), tmo: toInt(req["tmo"]), nw: toInt(req["new"])}
 	switch q.op {
-	case "Unlock":
+	case "Unlock", "UnlockT":
 		q.pwStr = g.presented(q.pw, false)
+		q.coin = g.intn(2)
 	case "GetSeed":
 		q.pwStr = g.presented(q.pw, true)
 	case "SetPasswd":
@@ -198,6 +200,8 @@ func (g *walletRig) call(q *creq, viaBus bool) string {
 			tmo = g.tmoS
 		}
 		return okfail(n.unlock(viaBus, q.pwStr, tmo))
+	case "UnlockT":
+		return okfail(n.unlockTicket(viaBus, q.pwStr, int64(q.coin)*g.tmoS))
 	case "Lock":
 		return okfail(n.lock(viaBus))
 	case "SetPasswd":
@@ -434,10 +438,14 @@ func (d *lockDrv) apply(s core.Step) (any, any, error) {
 		ret = cs.result
 		delete(d.calls, c)
 	case "Timer":
-		// the unlock timer fires: visible as the flag going back to locked. A wallet still
-		// unlocked long after its timeout (10x + 20 s) is reported as such, not as a tooling error.
-		deadline := time.Now().Add(10*d.tmo() + 20*time.Second)
-		for !d.rig.n.w.IsWalletLocked() && time.Now().Before(deadline) {
+		// the deadline of the unlock timer is reached: both unsynchronised observers must show
+		// the wallet locked. Polled up to 4x the timeout + 4 s (timeout 2 s: 12 s); a wallet still
+		// unlocked then is reported as such (a disagreement), not as a tooling error.
+		deadline := time.Now().Add(4*d.tmo() + 4*time.Second)
+		for time.Now().Before(deadline) {
+			if st, _ := d.rig.n.statusLocked(false); st && d.rig.n.w.IsWalletLocked() {
+				break
+			}
 			time.Sleep(5 * time.Millisecond)
 		}
 		d.armedAt = time.Time{}
